@@ -394,6 +394,44 @@ def finish(ctx, G, S, where):
                 ctx.violation(kind + ":from_networkx-raises", "%s: from_networkx of the same graph with %s raised %r" % (where, tag, H))
                 return
             compare(ctx, H, S, where + " after from_networkx(%s)" % tag)
+    if kind == "simple" and S.n >= 1:
+        # a networkx DiGraph / MultiDiGraph holding both arcs of some edges is still that simple graph
+        for tag, Y in (("DiGraph with both arcs", networkx.DiGraph()), ("MultiDiGraph with both arcs", networkx.MultiDiGraph())):
+            Y.add_nodes_from(range(1, S.n + 1))
+            for j, (a, b) in enumerate(X.edges()):
+                Y.add_edge(a, b)
+                if j % 2 == 0:
+                    Y.add_edge(b, a)
+            ctx.count("networkx_relabelled_inputs")
+            st, H = ctx.call(cls.from_networkx, Y)
+            if st == "exc":
+                ctx.violation(kind + ":from_networkx-raises", "%s: from_networkx of the same graph as a %s raised %r" % (where, tag, H))
+                return
+            compare(ctx, H, S, where + " after from_networkx(%s)" % tag)
+    if kind == "bipartite" and S.L + S.R >= 1:
+        # the sides spelled as text ('0' / '1', what the dot reader delivers), as bool, as float; right vertices listed first
+        # or interleaved; edges listed from either end: each side is numbered in node order
+        for tag, side in (("text sides", lambda c: str(c)), ("bool sides", bool), ("int sides, right first", int)):
+            Y = networkx.Graph()
+            order = [("r", v) for v in range(1, S.R + 1)] + [("l", u) for u in range(1, S.L + 1)]
+            if tag == "bool sides":
+                order = [x for pair in zip([("l", u) for u in range(1, S.L + 1)] + [None] * S.R, [("r", v) for v in range(1, S.R + 1)] + [None] * S.L)
+                         for x in pair if x is not None]
+            for (sd, i) in order:
+                Y.add_node("%s%d" % (sd, i), bipartite=side(0 if sd == "l" else 1))
+            for j, (u, v) in enumerate(S.edges()):
+                if j % 2:
+                    Y.add_edge("l%d" % u, "r%d" % v)
+                else:
+                    Y.add_edge("r%d" % v, "l%d" % u)
+            ctx.count("networkx_relabelled_inputs")
+            st, H = ctx.call(cls.from_networkx, Y)
+            if st == "exc":
+                ctx.violation(kind + ":from_networkx-raises", "%s: from_networkx of the same graph with %s raised %r" % (where, tag, H))
+                return
+            S3 = Shadow("bipartite", L=S.L, R=S.R)
+            S3.E = set(S.edges())
+            compare(ctx, H, S3, where + " after from_networkx(%s)" % tag)
     if cls.normalize(G) is not G:
         ctx.violation(kind + ":normalize-copies", "%s: normalize() of a cnfgen graph returned another object" % where)
 
